@@ -118,7 +118,7 @@ func i64(v int64) *int64 { return &v }
 
 func runC08(c *Ctx) {
 	r := c.R
-	r.SetRule("every bad upload kind (wrong / malformed / wrong-length / empty Content-MD5, declared length longer than the body, body reader failing after k bytes for every k in 0..len and around 32 KiB buffer boundaries, key of 1024 vs 1025 bytes, metadata far above the limit, missing / negative / non-numeric Content-Length, aws-chunked with wrong decoded length or truncated stream, the same (plain and aws-chunked) for UploadPart, Go PutObject with size != length) x prior state (key absent, key present) x backend (all seven configurations) x integrity on/off, each framed by snapshots of GET, HEAD, the key's listing entry, the bucket listing and ListParts; distinct = (backend, integrity, prior state, upload kind, failure point)")
+	r.SetRule("every bad upload kind (wrong / malformed / wrong-length / empty Content-MD5, declared length longer than the body, body reader failing after k bytes for every k in 0..len and around 32 KiB buffer boundaries, key of 1024 vs 1025 bytes (PUT and multipart initiation), browser form uploads with a Content-MD5 field, metadata far above the limit, missing / negative / non-numeric Content-Length, aws-chunked with wrong decoded length or truncated stream, the same (plain and aws-chunked) for UploadPart, Go PutObject with size != length) x prior state (key absent, key present) x backend (all seven configurations) x integrity on/off, each framed by snapshots of GET, HEAD, the key's listing entry, the bucket listing and ListParts; distinct = (backend, integrity, prior state, upload kind, failure point)")
 	r.Exhaustive(true)
 	r.Set("exhaustive_scope", "failure point k = every byte offset 0..len of a 96-byte (quick) / 1024-byte (thorough) body and 12 offsets around the 32 KiB and 64 KiB boundaries of a 70000-byte body, for every backend x integrity setting x prior state x {PUT, UploadPart, Go PutObject}")
 	smallLen := r.Pick(96, 1024)
@@ -310,6 +310,19 @@ func runC08(c *Ctx) {
 					return q
 				}},
 			}
+			// browser (form POST) uploads carry their Content-MD5 as a form field
+			formReq := func(md5 string, fieldName string) func(b, k string, body []byte) *drv.Req {
+				return func(b, k string, body []byte) *drv.Req {
+					fb, ct := formUploadFields(k, body, fieldName, md5)
+					return &drv.Req{Method: "POST", Path: "/" + b, Body: fb, Header: drv.H("Content-Type", ct)}
+				}
+			}
+			uploads = append(uploads,
+				badUpload{"form-md5-correct", "accept", func(b, k string, body []byte) *drv.Req { return formReq(drv.MD5B64(body), "Content-MD5")(b, k, body) }},
+				badUpload{"form-md5-wrong", "reject-if-integrity", formReq(otherMD5, "Content-MD5")},
+				badUpload{"form-md5-not-base64", "reject-if-integrity", formReq("!!!not base64!!!", "Content-MD5")},
+				badUpload{"form-md5-empty", "reject-if-integrity", formReq("", "Content-MD5")},
+			)
 			for ui, u := range uploads {
 				key := fmt.Sprintf("frame/%s/%02d-%s", prior, ui, u.name)
 				setup(key)
@@ -337,6 +350,28 @@ func runC08(c *Ctx) {
 				}
 				runFramed(fmt.Sprintf("key-%d-bytes", kl), exp, prior, key, nil, func() *drv.Resp { return s.Put(bucket, key, body, nil) }, nil, "-")
 				s.Delete(bucket, key)
+			}
+			// the same limit on the multipart route: the initiation is where the key is first named
+			if prior == "absent" {
+				uf := func() string {
+					l := s.Do(&drv.Req{Method: "GET", Path: "/" + bucket, Query: "uploads"})
+					var ur drv.UploadsResult
+					if l.Status != 200 || drv.ParseXML(l.Body, &ur) != nil {
+						return fmt.Sprintf("UPLOADS %d %s\n", l.Status, l.ErrCode())
+					}
+					var sb strings.Builder
+					for _, u := range ur.Uploads {
+						fmt.Fprintf(&sb, "UPLOAD %s\n", clip(u.Key, 60))
+					}
+					return sb.String()
+				}
+				for _, kl := range []int{1025, 2000} {
+					key := strings.Repeat("m", kl)
+					runFramed(fmt.Sprintf("initiate-key-%d-bytes", kl), "reject", prior, key, nil, func() *drv.Resp {
+						_, resp := mpInitiate(s, bucket, key, nil)
+						return resp
+					}, uf, "-")
+				}
 			}
 			// the limit is in bytes of the UTF-8 encoding: multi-byte keys over 1024 bytes but under 1024 characters
 			for _, mk := range []struct{ name, key string }{
